@@ -38,6 +38,7 @@ theorem lookup_applyEv (n : Nat) (t : Table) (e : Ev) :
       simp [h, AList.lookup_erase_ne h']
   | rrStart f => rfl
   | rrEnd f => rfl
+  | eor f => rfl
 
 theorem lookup_applyEvs (n : Nat) (t : Table) (evs : List Ev) :
     AList.lookup n (applyEvs t evs) = effect n evs (AList.lookup n t) := by
